@@ -17,7 +17,7 @@ def noisy_world(seed, n_chroms=3):
     w = world2.rich_world(seed, n_chroms=n_chroms, genes_per_chrom=3, reads_per_t=6, hidden_cov=7, unmapped=1, extra_len=70000,
                           zoo=tuple(z for z in world2.ZOO_ALL if z not in ("intronic", "apa")))
     rng = w.rng
-    main_chroms = [c for c in w.chrom_order if c not in ("chrU", "chrE", "chrN", "chrP", "chrQ")]     # the odd sequences of the zoo stay as they are
+    main_chroms = [c for c in w.chrom_order if c not in ("chrU", "chrE", "chrN", "chrP", "chrQ", "chrS")]     # the odd sequences of the zoo stay as they are
     # genes whose hidden isoform is a new combination of annotated introns (.nic)
     for ci, chrom in enumerate(main_chroms):
         last = max([g.end for g in w.genes if g.chrom == chrom] + [1000])
@@ -70,7 +70,7 @@ def noisy_world(seed, n_chroms=3):
 
 
 def main_chroms_of(w):
-    return [c for c in w.chrom_order if c not in ("chrU", "chrE", "chrN", "chrP", "chrQ")]
+    return [c for c in w.chrom_order if c not in ("chrU", "chrE", "chrN", "chrP", "chrQ", "chrS")]
 
 
 def check_gtf(chk, gm, fname, fai, desc, wit):
